@@ -211,7 +211,19 @@ class Check:
         mc = getattr(self.mod, "model_case", None)
         mlines = [sx.show(mc(c)) for c in cases] if mc else lines
         model = corr.run_model(mlines, jobs=max(1, jobs // 2)) if getattr(self.mod, "USE_MODEL", True) else [None] * len(lines)
-        impl = corr.run_impl(self.mod.RUNNER, lines, jobs=jobs)
+        rf = getattr(self.mod, "runner_for", None)
+        if rf is None:
+            impl = corr.run_impl(self.mod.RUNNER, lines, jobs=jobs)
+        else:
+            # several implementation runners in one property: partition the cases, keep the order
+            impl = [None] * len(lines)
+            groups = {}
+            for i, c in enumerate(cases):
+                groups.setdefault(rf(c), []).append(i)
+            for runner, idxs in groups.items():
+                outs = corr.run_impl(runner, [lines[i] for i in idxs], jobs=jobs)
+                for i, o in zip(idxs, outs):
+                    impl[i] = o
         return lines, model, impl
 
     def evaluate(self, cases, jobs):
